@@ -3,6 +3,7 @@ import NeumannModel.Parse.Model
 import NeumannModel.Parse.Select
 import NeumannModel.Parse.Nest
 import NeumannModel.Parse.Full
+import NeumannModel.Parse.Lex
 /-
   Line-protocol driver for the expression-parser model (C15).
 
@@ -54,6 +55,11 @@ import NeumannModel.Parse.Full
                                     `case <0|1> <n≥1> <0|1> [FT] (FT FT)… [FT]`
             fframes min|full|all FT nesting depth the real parser needs for that print
             fsexp FT                the answer `full` gives for a tree (the expected parse of its prints)
+            lex <ch>*               model of neumann_parser::tokenize (Lex.lean).  ch = `<cp>.<ws>.<alnum>.<up>`:
+                                    code point, char::is_whitespace / is_alphanumeric as 0|1, char::to_uppercase
+                                    as `+`-joined code points.  Answer: tokens `K@lo-hi`, K = `eof` | `name:<TokenKind
+                                    variant>` | `ident` | `int:<value>` | `float` | `str:<cp>.<cp>…` |
+                                    `err:unterminated|integer|float|char` | `fuel`
 -/
 open Neumann Neumann.Proto Neumann.Parse
 
@@ -479,6 +485,31 @@ def fextraOf : String → Option (Full.E → Bool)
   | "all" => some (fun _ => true)
   | _ => none
 
+/-! ### lexer (`Neumann.Parse.Lex`) -/
+
+def readCh (s : String) : Option Lex.Ch :=
+  match s.splitOn "." with
+  | [cp, w, a, u] =>
+    match cp.toNat?, readBool w, readBool a, (u.splitOn "+").mapM (·.toNat?) with
+    | some cp, some w, some a, some u => some ⟨cp, w, a, u⟩
+    | _, _, _, _ => none
+  | _ => none
+
+def showKind : Lex.Kind → String
+  | .eof => "eof"
+  | .name v => "name:" ++ v
+  | .ident => "ident"
+  | .integer v => s!"int:{v}"
+  | .float => "float"
+  | .str v => "str:" ++ ".".intercalate (v.map toString)
+  | .errUnterminated => "err:unterminated"
+  | .errInteger => "err:integer"
+  | .errFloat => "err:float"
+  | .errChar => "err:char"
+  | .fuel => "fuel"
+
+def showLexTok (t : Lex.Token) : String := s!"{showKind t.kind}@{t.lo}-{t.hi}"
+
 def parseStep (_ : Unit) (line : String) : Unit × String :=
   let bad := ((), "bad-op")
   match words line with
@@ -490,6 +521,8 @@ def parseStep (_ : Unit) (line : String) : Unit × String :=
       | some x, some e => ((), toString (Full.framesWith x e)) | _, _ => bad
   | "fsexp" :: ws => match readFTree ws with
       | some e => ((), "ok " ++ showFE e) | none => bad
+  | "lex" :: ws => match ws.mapM readCh with
+      | some cs => ((), " ".intercalate ((Lex.lex cs).map showLexTok)) | none => bad
   | "nest" :: ws => match ws.mapM readNTok with
       | some ts => ((), showNestRes ts.length (Nest.parseStmt ts)) | none => bad
   | "sel" :: ws => match ws.mapM readSTok with
